@@ -171,7 +171,8 @@ small_free_memory_list::small_free_memory_list(small_free_memory_list&& other) n
   alloc_chunk_(&base_),
   dealloc_chunk_(&base_)
 {
-    if (!other.empty())
+    // take over the chunks whenever there are any: a list without a free node still has them
+    if (other.base_.next != &other.base_)
     {
         base_.next             = other.base_.next;
         base_.prev             = other.base_.prev;
@@ -193,8 +194,11 @@ void foonathan::memory::detail::swap(small_free_memory_list& a, small_free_memor
 {
     auto b_next = b.base_.next;
     auto b_prev = b.base_.prev;
+    // whether there are chunks to hand over (a list without a free node still has them)
+    auto a_has_chunks = a.base_.next != &a.base_;
+    auto b_has_chunks = b_next != &b.base_;
 
-    if (!a.empty())
+    if (a_has_chunks)
     {
         b.base_.next       = a.base_.next;
         b.base_.prev       = a.base_.prev;
@@ -207,7 +211,7 @@ void foonathan::memory::detail::swap(small_free_memory_list& a, small_free_memor
         b.base_.prev = &b.base_;
     }
 
-    if (!b.empty())
+    if (b_has_chunks)
     {
         a.base_.next       = b_next;
         a.base_.prev       = b_prev;
